@@ -19,6 +19,10 @@ fn main() {
          ONE encoding of psf2, raw, dcs, xb, xb2, adf, idf, icy, font slot, compress flag, and a construction route independent of both: create_8 | from_basic | from_bytes(raw) | \
          from_bytes(PSF2) | built-in page or SAUCE font with 1..=8 glyphs edited in place through the public glyph map (name kept, checksum not refreshed) | the same and renamed | built-in renamed only); \
          built-in part = every font page 0..=42 and every SAUCE font name x the same 8 encodings x {as loaded, edited in place, edited and renamed, renamed} (enumerated). \
+         Targets are also NON-FRESH: a dcs case is a session through one parser and one terminal buffer (0..=5 earlier steps: font sequences into the same or other slots - the identical font, same height other glyphs, \
+         other height -, font selection CSI 0;n SP D, RIS, soft reset, text), after EVERY step every slot must hold size, glyph count and glyphs of the LAST font sent into it (resets drop the expectation); \
+         document encodings optionally set the fonts over fonts already present in the slots; tdf writer cases optionally overwrite an occupied glyph table, recycle a font object read from a file, \
+         or append fonts to a bundle that was written and read back. \
          The expected glyphs are always what the font object reports (glyphs / get_glyph), never a cached field; a failure on a route other than create_8 is re-tried with a create_8 font \
          of the same glyphs and carries |route=.. in its key only when that passes. Oracle: decoded size, length and the complete glyph table equal the model (missing and invented glyphs both fail); \
          the written bytes are also compared with the format documents (PSF2 header, XBin/ADF/IDF font block, CTerm font DCS). \
